@@ -115,6 +115,10 @@ var c14calls = []c14call{
 	{"l", "Infof", 0, func(c *c14ctx) { c.mark(); _ = c.l.Infof("%s", c.msg) }},
 	{"l", "Warnf", 0, func(c *c14ctx) { c.mark(); _ = c.l.Warnf("%s", c.msg) }},
 	{"l", "Errorf", 0, func(c *c14ctx) { c.mark(); _ = c.l.Errorf("%s", c.msg) }},
+	{"l", "Infof", 0, func(c *c14ctx) { c.mark(); _ = c.l.Infof("a constant message, no operands") }},
+	{"l", "Warnf", 0, func(c *c14ctx) { c.mark(); _ = c.l.Warnf("100%% done, no operands") }},
+	{"l", "Errorf", 0, func(c *c14ctx) { c.mark(); _ = c.l.Errorf(c.msg) }},
+	{"l", "Infof", 0, func(c *c14ctx) { c.mark(); _ = c.l.Infof("%d operands of %s kinds", 2, "two") }},
 	{"p", "Panic", 0, func(c *c14ctx) { c.mark(); slog.Panic(c.msg, c.args...) }},
 	{"p", "Fatal", 0, func(c *c14ctx) { c.mark(); slog.Fatal(c.msg, c.args...) }},
 	{"p", "Error", 0, func(c *c14ctx) { c.mark(); slog.Error(c.msg, c.args...) }},
